@@ -95,7 +95,7 @@ def project_report(r, I):
     cb = r.codebase
     return {
         "version": I(r.version), "uuid": I(r.uuid), "root": I(cb.root),
-        "repo": [I(r.repository.owner), I(r.repository.name), I(r.repository.branch)] if r.repository else [],
+        "repo": [I(r.repository.owner), I(r.repository.name), I(r.repository.branch)] if r.repository is not None else [],
         "files": [{"path": I(p), "checksum": I(e.checksum()), "language": I(e.language), "loc": e.loc,
                    "meas": [[I(m.unit_name), m.start.line, m.start.column, m.end.line, m.end.column, m.value] for m in e.measurements()]} for p, e in cb.files.items()],
         "totals": [[I(l), t.files, t.loc, t.functions, t.hard_to_maintain, t.unmaintainable] for l, t in cb.totals.items()],
